@@ -1265,7 +1265,17 @@ class Interp:
                 self._assign(s.target, v, st)
             return [st]
         if isinstance(s, ast.AugAssign):
-            cur = self.eval(s.target, st) if isinstance(s.target, ast.Name) else U("aug")
+            heap_target = False
+            if isinstance(s.target, (ast.Attribute, ast.Subscript)) and self.heap:
+                # obj.attr += v / table[k] += v on an object of the scenario's heap: read, combine, write back
+                holder = self.eval(s.target.value, st)
+                heap_target = isinstance(holder, Ref) and (holder.kind == "obj" or isinstance(s.target, ast.Subscript))
+            if isinstance(s.target, ast.Name) or heap_target:
+                load = copy.copy(s.target)
+                load.ctx = ast.Load()
+                cur = self.eval(load, st)
+            else:
+                cur = U("aug")
             rhs = self.eval(s.value, st)
             new: V = U("augassign")
             if isinstance(cur, K) and isinstance(rhs, K) and isinstance(s.op, ast.Add):
@@ -1285,7 +1295,7 @@ class Interp:
                 if isinstance(new, U):
                     new = U("augassign")
             st.effects.append(("augassign", norm(s.target), type(s.op).__name__, rhs))
-            if isinstance(s.target, ast.Name):
+            if isinstance(s.target, ast.Name) or (heap_target and st.pending is None):
                 self._assign(s.target, new, st)
             return [st]
         if isinstance(s, ast.Expr):
@@ -1447,6 +1457,17 @@ class Interp:
                     if o.term is not None and o.term[0] == "raise" and any(exc_is(str(o.term[1]), n, self.exc_parents) for n in names):
                         o.term = None
                 return outs_s
+            if len(s.items) > 1 and cm0_known is not None and getattr(self, "on_with_object", None) is not None:
+                # `with a, b: body` is `with a: with b: body`: a later item may be a context manager the scenario interprets
+                it0 = s.items[0]
+                st.effects.append(("with-enter", norm(it0.context_expr), cm0_known))
+                if it0.optional_vars is not None:
+                    self._assign(it0.optional_vars, R("entered", cm=cm0_known), st)
+                nested = ast.copy_location(ast.With(items=s.items[1:], body=s.body), s)
+                outs_n = self.run([nested], st)
+                for o in outs_n:
+                    o.effects.append(("with-exit", norm(it0.context_expr), "raise" if o.term is not None and o.term[0] == "raise" else "normal"))
+                return outs_n
             for idx_w, it in enumerate(s.items):
                 cm = cm0_known if (idx_w == 0 and cm0_known is not None) else self.eval(it.context_expr, st)  # evaluated once
                 st.effects.append(("with-enter", norm(it.context_expr), cm))
